@@ -156,7 +156,7 @@ def main(argv=None):
     spaces = mod.spaces(tier, seed)
     if a.only:
         spaces = [s for s in spaces if a.only in s.name]
-    rep = ex.explore(spaces, jobs=a.jobs, log=log) if spaces else {'spaces': [], 'fatal': None,
+    rep = ex.explore(spaces, jobs=a.jobs, log=log, task_timeout=420.0 if tier == 'quick' else 2400.0) if spaces else {'spaces': [], 'fatal': None,
                                                                   'complete': True}
     sp_reports = rep['spaces']
     if hasattr(mod, 'run_extra') and not a.only:
